@@ -684,6 +684,9 @@ func TestVerifBoundedGrammar(t *testing.T) {
 			fail("C08", "parsing panics on %s %q: %v", what, s, o.panicked)
 		case o.model == nil && o.err == nil && strings.TrimSpace(s) != "":
 			fail("C08", "parsing returns neither a model nor an error for %s %q", what, s)
+		case o.err == nil && o.model != nil && (o.model.SingleQuery == nil || (o.model.SingleQuery.SinglePartQuery == nil && o.model.SingleQuery.MultiPartQuery == nil)):
+			// "error xor complete model": a model without any query part is not a model of a non-blank input
+			fail("C08", "parsing returns no error and a model without a query part for %s %q", what, s)
 		case o.took > limit:
 			fail("C08", "parsing %s of %d bytes took %v (limit %v): %.60q", what, len(s), o.took, limit, s)
 		}
@@ -754,6 +757,12 @@ func TestVerifBoundedGrammar(t *testing.T) {
 	}
 	// ---- C08: hostile byte strings and nesting ----
 	hostile := []string{"", " ", "\t\n", ";", "\x00", "\xff\xfe", "match (n) return n\xc3", "'", "\"", "`", "/*", "//", "match (n) return 'a\\", "return 99999999999999999999999999", "return 1e99999", "return 0x", "return 0xfffffffffffffffffffffff", "return .", "return ..", "return 1..2", "match (n)-[*99999999999999999999]->() return n", "match (n)-[*1..99999999999999999999]->() return n", "match (n)-[*..]->() return n", "match (n {a: {b: {c: 1}}}) return n", "return $", "return $1", "return {", "match", "match (", "match (n", "match (n)", "match (n) return", "return [", "return [1,", "return -", "return not", "return n.", "return n:", "match ()-[]-()-[]-() return 1", "using periodic commit load csv from 'x' as l return l", "call", "call x", "yield", "return count(", "return count(*", "return all(", "return all(x in", "return filter(", "return extract(x in y |", "unwind", "with", "optional", "optional match", "order by", "return 1 order by", "return 1 skip", "return 1 limit", "return 1 union", "return 1 union all", "start n=node(*) return n", "explain", "profile", "cypher", "cypher 2.3", "cypher planner=cost"}
+	// repeated elements with the SAME spelling (the sentence generator draws fresh names): a type, label, key or variable
+	// listed twice must not derail the visitor stack
+	repeats := []string{"match (a)-[:A|A]->(b) return b", "match (a)-[r:A|:A|B*1..2]->(b) return r", "match (n:L:L) return n", "match (n {a: 1, a: 2}) return n", "match (n), (n) return n, n", "match (n) return n.a, n.a order by n.a, n.a", "match (n) set n:L:L, n.a = 1, n.a = 1 return n", "match (n) with n, n.a as x, n.a as y return x, y", "return [1, 1], {k: 1, k: 1}", "match p = (a)-[:A|A|A]-(a) return p, p"}
+	for _, r := range repeats {
+		totality(r, "repeated element")
+	}
 	for _, h := range hostile {
 		totality(h, "hostile input")
 	}
